@@ -109,6 +109,10 @@ def to_json(schema, h, ty, v):
         return to_json(schema, h, inner, v.fields[0])
     if wrap in ("Vec", "Array"):
         return [to_json(schema, h, inner, x) for x in v.elems]
+    if wrap == "HashMap":
+        from mir import split_top
+        kt, vt = split_top(inner)
+        return {(kv.fields[0].tag[2:] if isinstance(kv.fields[0], Opaque) else str(kv.fields[0])): to_json(schema, h, vt, kv.fields[1]) for kv in v.fields[0].elems}
     name = last_seg(ty)
     if is_quantity(ty) or name in NUM_TYPES:
         if isinstance(v, Opaque) and v.tag == "NaN":
@@ -253,6 +257,12 @@ def validate_case(case, mir, schema, native, n, seed, models=None):
                     break
             post = to_json(schema, h, case.recv_ty, h.deref(st, p)) if p is not None else None
             retj = plain(h, st, retv)
+            rty = getattr(case, "ret_ty", None)
+            if rty and retv is not None:
+                rv = h.eng.deref_all(st, retv)
+                if isinstance(rv, Enum) and rv.ty == "Result" and rv.variant == 0:
+                    rv = rv.fields[0]
+                    retj = to_json(schema, h, rty, Struct(rty, rv.fields) if isinstance(rv, Struct) and rv.ty == "()" else rv)
         except (Unsupported, Exception) as e:  # noqa
             res["skipped"] += 1
             res.setdefault("skip_reasons", []).append(repr(e)[:200])
